@@ -252,6 +252,7 @@ impl Ev {
                     ],
                 ])
             }
+            "projo" => G::Eq(a[1].clone(), T::list(vec![a[0].clone()])),
             "cello" => {
                 let w = self.fresh();
                 G::Conde(vec![vec![G::Eq(a[0].clone(), T::cons(T::I(1), w.clone()))], vec![G::Eq(a[1].clone(), T::cons(T::I(2), w))]])
